@@ -39,7 +39,6 @@ import (
 	quic "github.com/refraction-networking/uquic"
 	"github.com/refraction-networking/uquic/internal/protocol"
 	"github.com/refraction-networking/uquic/qlog"
-	"github.com/refraction-networking/uquic/qlogwriter"
 	tls "github.com/refraction-networking/utls"
 )
 
@@ -368,7 +367,7 @@ func genLimits(seed uint64, tier string) KScenario {
 	case "conn":
 		expect = a(limIDMaxData)
 	}
-	if expect > 3<<20 && !(tier == "thorough" && r.P(0.5)) && !r.P(0.18) {
+	if expect > 3<<20 && !(tier == "thorough" && r.P(0.5)) && !r.P(0.06) {
 		// most of the time a derived list with windows that cost less to fill (the full windows of the built-in lists
 		// are reached by the remaining share, by the boost below and by the sweep)
 		set := func(id uint64, v int64) {
@@ -400,7 +399,7 @@ func genLimits(seed uint64, tier string) KScenario {
 			sc.Cfg.MaxWin[1] = 0
 		}
 	}
-	if r.P(0.012) {
+	if r.P(0.006) {
 		// now and then the full boundary of a built-in list: Config not the binding side, no faults
 		sc.TPs, sc.TPRot, sc.Faulty, sc.Reader = nil, 0, false, ""
 		sc.Push = []string{"stream-uni", "stream-bidi", "stream-bidi-rev", "conn"}[r.N(4)]
@@ -490,33 +489,33 @@ func sweepLimits(idx int, tier string) KScenario {
 	return sc
 }
 
-// ---------------------------------------------------------------- in-memory qlog recorder
+// ---------------------------------------------------------------- the client's own record (qlog)
 
-type limTrace struct {
-	mu  sync.Mutex
-	own []qlog.ParametersSet
-}
-
-type limRecorder struct{ t *limTrace }
-
-func (t *limTrace) AddProducer() qlogwriter.Recorder { return &limRecorder{t} }
-func (t *limTrace) SupportsSchemas(string) bool       { return true }
-func (r *limRecorder) Close() error                   { return nil }
-func (r *limRecorder) RecordEvent(e qlogwriter.Event) {
-	var ps qlog.ParametersSet
-	switch ev := e.(type) {
-	case qlog.ParametersSet:
-		ps = ev
-	case *qlog.ParametersSet:
-		ps = *ev
-	default:
-		return
+// limOwnParameters: the parameters_set events the client connection recorded for its own transport parameters
+// (read from the world's in-memory qlog of the client side).
+func limOwnParameters(n *Nodes) []qlog.ParametersSet {
+	var out []qlog.ParametersSet
+	q := n.QLog[0]
+	if q == nil {
+		return nil
 	}
-	if ps.Initiator == qlog.InitiatorLocal && !ps.Restore {
-		r.t.mu.Lock()
-		r.t.own = append(r.t.own, ps)
-		r.t.mu.Unlock()
+	q.mu.Lock()
+	defer q.mu.Unlock()
+	for _, e := range q.Events {
+		var ps qlog.ParametersSet
+		switch ev := e.Ev.(type) {
+		case qlog.ParametersSet:
+			ps = ev
+		case *qlog.ParametersSet:
+			ps = *ev
+		default:
+			continue
+		}
+		if ps.Initiator == qlog.InitiatorLocal && !ps.Restore {
+			out = append(out, ps)
+		}
 	}
+	return out
 }
 
 // ---------------------------------------------------------------- advertised values (off the wire) and wire accounting
@@ -774,8 +773,6 @@ func runLimits(t *testing.T, ksc KScenario, res *KResult) {
 		}
 		lw.onSend(rec)
 	}
-	trace := &limTrace{}
-	nodes.CQ.Tracer = func(ctx context.Context, isClient bool, _ quic.ConnectionID) qlogwriter.Trace { return trace }
 	// the server: datagrams on; its idle timeout never the binding one (the client's advertised value is)
 	specIdle := int64(0)
 	specIdlePresent := false
@@ -1528,9 +1525,7 @@ func runLimits(t *testing.T, ksc KScenario, res *KResult) {
 	if res.Failed() {
 		return
 	}
-	trace.mu.Lock()
-	own := append([]qlog.ParametersSet{}, trace.own...)
-	trace.mu.Unlock()
+	own := limOwnParameters(nodes)
 	if len(own) == 0 {
 		report("C12", limSigNoRecord, "")
 		return
